@@ -173,6 +173,45 @@ def opNames (j : Json) : Except String Json := do
 def opProtoAlias (j : Json) : Except String Json := do
   pure (Json.mkObj [("alias", jstr (protoAlias (← names j "names")))])
 
+def splitDotsAux : N → N → List N
+  | acc, [] => [acc.reverse]
+  | acc, c :: cs => if c = '.' then acc.reverse :: splitDotsAux [] cs else splitDotsAux (c :: acc) cs
+
+def splitDots (s : N) : List N := splitDotsAux [] s
+
+def knownOfJson (j : Json) (k : String) : Except String Known := do
+  (← getArrL j k).mapM fun e => do
+    match (← e.getArr?).toList with
+    | [Json.str n, Json.bool b] => pure (splitDots n.toList, b)
+    | _ => throw "bad known entry"
+
+/-- `{"op":"c02.schema","fields":[{"decls":[…],"idx":n|null,"tn":"a.b.C"|null,"loaded":[[name,isEnum]…]}],
+     "file_all":[…],"api":"acme.lib.v1","api_root":[…],"deps":[…],"addrs":[ADDR…]}`:
+    the loader-side facts of one file (oneof names, late resolution) and the import packages of addresses -/
+def opSchema (j : Json) : Except String Json := do
+  let fileAll ← knownOfJson j "file_all"
+  let api ← getStrL j "api"
+  let apiRoot ← names j "api_root"
+  let deps ← names j "deps"
+  let fields ← (← getArrL j "fields").mapM fun f => do
+    let decls ← names f "decls"
+    let idx ← match optField f "idx" with
+      | none => pure none
+      | some v => do pure (some (← v.getNat?))
+    let loaded ← knownOfJson f "loaded"
+    let res := match optField f "tn" with
+      | some (Json.str tn) => resolveField loaded fileAll (splitDots tn.toList)
+      | _ => none
+    pure (Json.mkObj [("oneof", optJson jstr (oneofName decls idx)),
+      ("resolved", match res with
+        | some (n, b) => jarr [dotted n, Json.bool b]
+        | none => Json.null)])
+  let addrs ← (← getArrL j "addrs").mapM (addrOfJson [])
+  pure (Json.mkObj [("fields", jarr fields),
+    ("addrs", jarr (addrs.map fun a => Json.mkObj [
+      ("proto_plus", Json.bool (isProtoPlus api deps a.package)),
+      ("import_package", jarr ((pythonImportPackage api (splitDots api) apiRoot deps a).map jstr))]))])
+
 def opTables (_ : Json) : Except String Json :=
   pure (Json.mkObj [
     ("descriptor_types", jarr (descriptorTypeNames.map fun (n, s) => jarr [jnat n, jstr s])),
@@ -194,6 +233,6 @@ end C02
 
 def opsC02 : List (String × (Json → Except String Json)) :=
   [("c02.module", C02.opModule), ("c02.rel", C02.opRel), ("c02.names", C02.opNames),
-   ("c02.tables", C02.opTables), ("c02.enum", C02.opEnum), ("c02.proto_alias", C02.opProtoAlias)]
+   ("c02.tables", C02.opTables), ("c02.enum", C02.opEnum), ("c02.proto_alias", C02.opProtoAlias), ("c02.schema", C02.opSchema)]
 
 end GapicModel.Driver
